@@ -40,6 +40,16 @@ def sdmf_fields(payload):
     }
 
 
+def pubkey_span(payload):
+    """(start, end) of the verification key inside a share payload, SDMF or MDMF."""
+    if payload[0] == 0:
+        f = sdmf_fields(payload)
+        return f["pubkey"]
+    hdr = struct.calcsize(">BQ32sBBQQ")
+    offs = struct.unpack(">QQQQQQQQ", payload[hdr:hdr + 64])
+    return offs[3], offs[4]
+
+
 PRE = """
 Definition g_blk (seg : N) := Atom (100 + seg).
 Definition g_salt (seg : N) := Atom (200 + seg).
@@ -129,7 +139,7 @@ def oracle_stream(ctx, G, OFF):
         S = r.choice([N, N + 1])
         fmt = r.choice(["sdmf", "mdmf"])
         nver = r.choice([1, 2, 3])
-        scenario = r.choice(["flip", "flip", "truncate", "other-file", "older-version", "mix"])
+        scenario = r.choice(["flip", "flip", "truncate", "other-file", "forged-with-our-key", "forged-with-our-key", "older-version", "mix"])
         if scenario == "older-version" and nver == 1:
             nver = 2
         case = {"seed": seed, "k": k, "N": N, "servers": S, "format": fmt, "versions": nver, "scenario": scenario}
@@ -140,7 +150,11 @@ def oracle_stream(ctx, G, OFF):
             for c in contents[1:]:
                 g.run(g.mutable_overwrite(node, c))
                 snaps.append({(sh.server, sh.shnum): g.read_share(sh) for sh in g.find_shares(node.get_uri())})
-            other = g.run(g.create_mutable(contents[-1], version=fmt, keypair=g.keypair(1)))   # same bytes, another key
+            # a complete, self-consistent file made by somebody else (another key, other contents,
+            # correctly signed with THAT key): its shares must never be accepted for our cap, also not
+            # when its verification-key field is replaced by ours ("forged-with-our-key")
+            forged_data = b"FORGED-" + bytes([48 + i % 10]) * len(contents[-1])
+            other = g.run(g.create_mutable(forged_data, version=fmt, keypair=g.keypair(1)))
             other_shares = {sh.shnum: g.read_share(sh) for sh in g.find_shares(other.get_uri())}
             shs = g.find_shares(node.get_uri())
             r.shuffle(shs)
@@ -148,7 +162,7 @@ def oracle_stream(ctx, G, OFF):
             altered = set()
             for sh in victims:
                 raw = g.read_share(sh)
-                sc = scenario if scenario != "mix" else r.choice(["flip", "truncate", "other-file", "older-version"])
+                sc = scenario if scenario != "mix" else r.choice(["flip", "truncate", "other-file", "forged-with-our-key", "older-version"])
                 if sc == "flip":
                     for _ in range(r.choice([1, 1, 2, 5])):
                         pos = OFF + r.randrange(len(raw) - OFF)
@@ -160,6 +174,15 @@ def oracle_stream(ctx, G, OFF):
                     src = other_shares.get(sh.shnum) or list(other_shares.values())[0]
                     # keep this slot's container header (write enabler, leases), replace the payload
                     g.write_share(sh, raw[:OFF] + src[OFF:])
+                elif sc == "forged-with-our-key":
+                    src = other_shares.get(sh.shnum) or list(other_shares.values())[0]
+                    a, b = pubkey_span(raw[OFF:])
+                    c, d = pubkey_span(src[OFF:])
+                    if (b - a) == (d - c):
+                        forged = src[OFF:OFF + c] + raw[OFF + a:OFF + b] + src[OFF + d:]
+                        g.write_share(sh, raw[:OFF] + forged)
+                    else:
+                        g.write_share(sh, raw[:OFF] + src[OFF:])
                 elif sc == "older-version" and len(snaps) >= 2:
                     g.write_share(sh, snaps[r.randrange(0, len(snaps) - 1)][(sh.server, sh.shnum)])
                 altered.add((sh.server, sh.shnum))
